@@ -32,7 +32,8 @@ ASSUMPTIONS = [
     "inputs are the 3-D (Nx,Ny,Nz) arrays a Device hands to its transforms (matrix_voxel_grid_shape); other ranks "
     "are not generated",
     "exact ties (x.5 in the integer mode, midpoints between inverse permittivities) are excluded with a guard band "
-    "of 1e-3 (integer mode) / 1e-4 (inverse mode); NaN/inf inputs are not generated",
+    "of 1e-3 (integer mode) / 1e-4 (inverse mode); NaN/inf inputs are not generated; out-of-range values reach "
+    "+-1e6 in the integer mode and +-50 in the inverse mode (float32 cannot resolve 1e-4 at 1e6)",
     "the inverse-permittivity mode is only claimed (and generated) for isotropic materials",
     "gradient pass-through is checked as jax.grad(sum(w*f(x))) == w with |err| <= 1e-12 (f64) / 1e-6 (f32)",
 ]
@@ -149,6 +150,9 @@ def _values(case, np_dtype):
         x = rng.uniform(lo - 0.75 * span - 0.2, hi + 0.75 * span + 0.2, n)
     else:  # clustered around the allowed values
         x = allowed[rng.integers(0, len(allowed), n)] + rng.normal(0, 0.2 * span / len(allowed), n)
+    # far out of range: the integer mode is exact for any magnitude; in the inverse mode |x - 1/eps| is formed in
+    # the lane dtype, so the magnitude is kept where float32 still resolves the guard band (ulp(50) = 4e-6 << 1e-4)
+    far = 1e6 if case["mode"] == "int" else 50.0
     srt = np.sort(allowed)
     mids = (srt[1:] + srt[:-1]) / 2
     for pos, kind, k in case["specials"]:
@@ -158,9 +162,9 @@ def _values(case, np_dtype):
             mid = mids[k % len(mids)]
             x[pos] = mid + (3 * guard if kind == "boundary+" else -3 * guard)
         elif kind == "far+":
-            x[pos] = hi + 1e6
+            x[pos] = hi + far
         elif kind == "far-":
-            x[pos] = lo - 1e6
+            x[pos] = lo - far
         elif kind == "zero":
             x[pos] = 0.0
         else:
